@@ -1,13 +1,17 @@
 #!/bin/sh
-# usage: try_mutant.sh <seeded dir> <Cxx> [<Cyy> ...]   — runs the checks against /repo with the patch applied, then reverts
+# usage: try_mutant.sh <seeded dir> <Cxx> [<Cyy> ...]
+# applies the patch in a scratch worktree of /repo (never in /repo itself), runs the checks against that tree
+# (GOTRANX_REPO), and removes the worktree.  Evidence of these trial runs goes to /tmp, not to evidence/.
 d=$1; shift
-git -C /repo diff --quiet || { echo "/repo is dirty"; exit 2; }
-git -C /repo apply "$d/patch.diff" || exit 2
+wt=/tmp/wt-try-$$
+git -C /repo worktree add -q "$wt" HEAD || exit 2
+git -C "$wt" apply "$d/patch.diff" || { git -C /repo worktree remove --force "$wt"; exit 2; }
 for p in "$@"; do
-  out=$(cd /verif && ./check "$p" --tier quick 2>&1 | grep -v 'WARNING conda')
-  rc=$?
+  out=$(cd /verif && GOTRANX_REPO="$wt" VERIF_EVIDENCE_DIR=/tmp/try-evidence ./check "$p" --tier quick 2>&1 | grep -v 'WARNING conda')
   echo "== $d vs $p: $(echo "$out" | grep -c '^VIOLATION') violation line(s)"
-  echo "$out" | grep -E '^(VIOLATION|KNOWN)' | cut -c1-260 | head -4
+  echo "$out" | grep -E '^VIOLATION' | cut -c1-260 | head -4
   echo "$out" | tail -1 | cut -c1-200
 done
-git -C /repo checkout -- .
+git -C /repo worktree remove --force "$wt"
+# restore the extracted parameters of the real tree
+(cd /verif && /venv/bin/python -m harness.extract > /dev/null 2>&1)
